@@ -145,8 +145,15 @@ def check(prog, run):
         f = prog.func(modname, clsname, spec["func"])
         file = prog.rel(f.module)
         ndec += 1
-        dps = explore_decoder(prog, cls, spec["func"], kwargs=decoder_kwargs(spec))
         c = "%s.%s" % (clsname, spec["func"])
+        try:
+            dps = explore_decoder(prog, cls, spec["func"], kwargs=decoder_kwargs(spec))
+        except AnalysisError as e:
+            if e.reason != "static-loop-does-not-terminate":
+                raise
+            run.violation("decoder-does-not-crash", c, "%s never returns: the loop at %s cannot terminate (its test does not depend on "
+                          "anything the body changes)" % (c, e.detail), file, f.node.lineno, f.qualname)
+            continue
         # (3) programming errors
         bad = [dp for dp in dps if dp.raised is not None and dp.raised.exc_class() is not None
                and dp.raised.exc_class().name in PROGRAMMING_ERRORS]
@@ -160,6 +167,27 @@ def check(prog, run):
                 continue
         else:
             run.ok("decoder-does-not-crash", c, {"paths": len(dps)})
+        # one container reported under two keys: what is decoded into one shows up in the other
+        shared = None
+        for dp in dps:
+            if dp.returned and isinstance(dp.value, dict):
+                seen = {}
+                stack = [("", dp.value)]
+                while stack:
+                    path, d = stack.pop()
+                    for k, v in d.items():
+                        if isinstance(v, dict) and k != "**":
+                            if id(v) in seen:
+                                shared = (seen[id(v)], "%s[%r]" % (path, k))
+                            else:
+                                seen[id(v)] = "%s[%r]" % (path, k)
+                                stack.append(("%s[%r]" % (path, k), v))
+        if shared:
+            run.violation("result-fields-distinct", "%s result%s and result%s" % (c, shared[0], shared[1]),
+                          "the decoder reports one and the same dictionary as result%s and as result%s: each shows the other's fields"
+                          % shared, file, f.node.lineno, f.qualname)
+        else:
+            run.ok("result-fields-distinct", c, nontrivial=False)
         facts, site_conds, order = facts_of(I, dps)
         reads = set()
         order2 = list(order)
